@@ -239,6 +239,7 @@ func init() {
 		wireCppBeName(wc, r, "C02", []string{"dec"}, 1<<kBasic|1<<kLength|1<<kCheckSum)
 		wireOrder(wc, r, "C02", "dec")
 		wireFieldOrderEmission(wc, r, "C02", map[string]bool{"dec": true})
+		sizeSumHonoursRepeat(w, r, "C02")
 		wireModelFrame(w, r, "C02", frameWire, nil, map[string]bool{"Field": true, "MatchPair": true}, "a generator rewrites the part of the shared model the decoders are derived from: the decoders of the targets generated after it no longer mirror the declared layout")
 		wireAssumptions(r)
 	})
@@ -257,6 +258,7 @@ func init() {
 		wirePadSpellings(w, wc, r)
 		wireTables(w, r, "C03")
 		wireSequenceFrame(w, r, "C03", map[string]bool{"Field": true, "MatchPair": true})
+		sizeSumHonoursRepeat(w, r, "C03")
 		nameKeyedSetOverInline(w, r, "C03", func(fn *ssa.Function) bool { return isGeneratorFunc(fn) && recvNamedCore(fn) != "LuaWspGenerator" }, "a generator remembers the packets it has written under their names and consults that set for inline objects too: of two inline objects that share a name (or an inline object named like a declared packet) only the first is emitted, and the members of the other are encoded with its layout")
 		wireModelFrame(w, r, "C03", frameWire, nil, nil, "a generator rewrites the part of the shared model the codecs are derived from: the targets generated before and after it disagree on the wire")
 		wireAssumptions(r)
@@ -268,6 +270,7 @@ func init() {
 		lengthLinkByKind(w, r, "C04")
 		wireOneByteEndian(w, wc, r, "C04")
 		wireFieldOrderEmission(wc, r, "C04", map[string]bool{"enc": true})
+		sizeSumHonoursRepeat(w, r, "C04")
 		wireModelFrame(w, r, "C04", frameWire, frameLength, nil, "a generator rewrites the length link / the kind of a field in the shared model: the targets generated after it lose or misplace the back-patch")
 		wireAssumptions(r)
 	})
